@@ -591,6 +591,90 @@ def two_stage_probe(p):
                     exp.append(ca.vec(ca.MX(r["r"])))
     except Exception as e:
         return dict(status="confirmed", failing_input=dict(generated=[2 * i, 2 * i + 1]), observed="%s: %s" % (type(e).__name__, str(e)[:300]), expected="the two-stage OCP transcribes")
+    r = _union_native(opti, J, exp, tags, dict(generated=[2 * i, 2 * i + 1]), "two-stage OCP", methods=[aug._stages[0]._method, aug._stages[1]._method])
+    return r or dict(status="not-reproduced", detail="objective and %d stage rows agree" % len(tags))
+
+
+def clones_of_probe(p):
+    """C04 / C09 / C12: a specification declared once as a template and instantiated twice on the real code (contracts/c12.py:
+    clones_of): every clone owes the rows and objective of the specification's oracle and keeps its own parameter values"""
+    import casadi as ca
+    from rockit import Ocp
+    from contracts import randspec
+    from contracts.spec import Spec
+    from contracts.oracle import Oracle
+    from contracts.backend import unknown
+    if "generated" in p:
+        kw = randspec.make(p["generated"])
+        fi = dict(generated=p["generated"], clones=2)
+    else:
+        from contracts.spec import own_horizon_kw
+        kw = own_horizon_kw(p["method"], tuple(p["T"]), tuple(p["t0"]))
+        fi = dict(template=dict(method=p["method"], T=p["T"], t0=p["t0"], horizon="the template's own parameter symbols"), clones=2)
+    try:
+        with contextlib.redirect_stdout(io.StringIO()):
+            tmpl = Spec(**kw)
+            tmpl.build(template=True)
+            master = Ocp()
+            cls = [master.stage(tmpl.ocp), master.stage(tmpl.ocp)]
+            pvs = []
+            for j, cl in enumerate(cls):
+                pv = {}
+                for kind in ("", "control", "control+"):
+                    for q, psym in enumerate(tmpl.sym[("p", kind)]):
+                        cols = {"": 1, "control": tmpl.N, "control+": tmpl.N + 1}[kind]
+                        val = unknown("clone%d_pval_%s%d" % (j, kind.replace("+", "plus"), q), psym.shape[0], psym.shape[1] * cols)
+                        cl.set_value(psym, val)
+                        pv[(kind, q)] = val
+                for key in ("T", "t0"):
+                    if "p_" + key in tmpl.sym:
+                        val = unknown("clone%d_pval_%s" % (j, key), positive=(key == "T"))
+                        cl.set_value(tmpl.sym["p_" + key], val)
+                        pv[key] = val
+                pvs.append(pv)
+            master.solver("ipopt")
+            master._transcribed
+            aug = master._augmented
+            opti = aug._method.opti
+            J, exp, tags, parts = 0, [], [], []
+            for j in range(2):
+                b = tmpl.bound_to(aug._stages[j], pvals=pvs[j])
+                b.opti = opti
+                parts.append((b, aug._stages[j]._method))
+                orc = Oracle(b, aug._stages[j]._method).expected()
+                J = J + orc.J
+                for r in orc.rows:
+                    for q in range(ca.MX(r["r"]).numel()):
+                        tags.append((r["kind"], "/".join(str(t) for t in ("clone%d" % j,) + r["tag"] + (q,))))
+                    exp.append(ca.vec(ca.MX(r["r"])))
+    except Exception as e:
+        return dict(status="confirmed", failing_input=fi, observed="%s: %s" % (type(e).__name__, str(e)[:300]), expected="the template and its two clones transcribe")
+    vals = opti.value_parameters()
+    bad, n = [], 0
+    for j, (sp, meth) in enumerate(parts):
+        for kind, lst in (("", meth.P), ("control", meth.P_control), ("control+", meth.P_control_plus)):
+            for q, P in enumerate(lst):
+                if (kind, q) not in sp.pvals:
+                    continue
+                members = [P] if kind == "" else list(P)
+                want = np.array(ca.DM(sp.pvals[(kind, q)]))
+                ncol = ca.MX(members[0]).shape[1]
+                for k_, sym in enumerate(members):
+                    n += 1
+                    got = np.array(opti.debug.value(ca.MX(sym), vals)).reshape(ca.MX(sym).shape)
+                    w = want if kind == "" else want[:, k_ * ncol:(k_ + 1) * ncol]
+                    if got.shape != w.shape or not np.allclose(got, w, rtol=1e-12, atol=1e-12):
+                        bad.append(dict(clone=j, parameter="%s #%d" % (kind or "global", q), member=k_, observed=got.tolist(), value_given_to_this_clone=w.tolist()))
+    if bad:
+        return dict(status="confirmed", failing_input=fi, problems=[dict(what="a clone's solver parameter does not carry the value given to that clone", entries=bad[:6], count=len(bad), checked=n)])
+    r = _union_native(opti, J, exp, tags, fi, "two clones", methods=[m_ for _, m_ in parts])
+    return r or dict(status="not-reproduced", detail="objective, %d clone rows and %d parameter members agree" % (len(tags), n))
+
+
+def _union_native(opti, J, exp, tags, failing_input, what, methods=None):
+    """numeric comparison (two random points) of a multi-stage NLP with the union of the stages' oracles"""
+    import casadi as ca
+    from replay.run import rows_of
     outs = [opti.f, ca.MX(J), opti.g, opti.lbg, opti.ubg, ca.vcat(exp) if exp else ca.MX(0, 1)]
     known = ca.vertcat(opti.x, opti.p)
     inactive = [s_ for s_ in ca.symvar(ca.veccat(*[ca.vec(o) for o in outs])) if not ca.depends_on(known, s_)]
@@ -610,7 +694,7 @@ def two_stage_probe(p):
     problems = []
     for o in pts:
         if abs(o[0][0] - o[1][0]) > 1e-7 * (1 + abs(o[1][0])):
-            problems.append(dict(what="objective of the two-stage OCP is not the sum of the stages' declared terms", observed=float(o[0][0]), expected=float(o[1][0])))
+            problems.append(dict(what="objective of the %s" % what + " is not the sum of the stages' declared terms", observed=float(o[0][0]), expected=float(o[1][0])))
             break
     em = [rows_of(o[2], o[3], o[4]) for o in pts]
     em_rows = [(em[0][j][0], np.array([em[q][j][2] for q in range(2)])) for j in range(len(em[0]))]
@@ -625,9 +709,28 @@ def two_stage_probe(p):
             used[hit] = True
     if missing:
         problems.append(dict(what="rows demanded by a stage's declaration are absent from the NLP", rows=missing[:8], count=len(missing)))
+    if methods is not None and not missing:
+        # frame: an emitted row no declaration accounts for may only be a grid-coupling row of ONE stage (a row over that
+        # stage's own time symbols; its content is judged by the engine's grid formulas)
+        Jg = np.array(ca.DM(ca.jacobian(opti.g, ca.vertcat(opti.x, opti.p)).sparsity(), 1))
+        tcols = []
+        for meth in methods:
+            tv = [ca.vec(ca.MX(e)) for lst in (getattr(meth, "T_local", []), getattr(meth, "t0_local", [])) for e in lst if e is not None] + [ca.vec(ca.MX(meth.T)), ca.vec(ca.MX(meth.t0))]
+            Jt = np.array(ca.DM(ca.jacobian(ca.vcat(tv), ca.vertcat(opti.x, opti.p)).sparsity(), 1))
+            tcols.append(set(np.nonzero(Jt.sum(axis=0))[0]))
+        foreign = []
+        for m, (k2, w) in enumerate(em_rows):
+            if used[m]:
+                continue
+            gi = em[0][m][1]
+            cols = set(np.nonzero(Jg[gi])[0])
+            if not cols or not any(cols <= tc for tc in tcols):
+                foreign.append(dict(kind=k2, g_index=int(gi), residuals=w.tolist()))
+        if foreign:
+            problems.append(dict(what="NLP rows that no declaration of any stage accounts for", rows=foreign[:8], count=len(foreign)))
     if problems:
-        return dict(status="confirmed", failing_input=dict(generated=[2 * i, 2 * i + 1]), problems=problems)
-    return dict(status="not-reproduced", detail="objective and %d stage rows agree" % len(tags))
+        return dict(status="confirmed", failing_input=failing_input, problems=problems)
+    return None
 
 
 def density_probe(p):
